@@ -266,6 +266,8 @@ Record cfg := mkcfg {
 Inductive cfgerr :=
 | CLabelsNotDefined (labels : list (wth str))   (* a set: order irrelevant *)
 | CDuplicateLabel (l : wth str)
+| CLabelWithoutInstruction (l : wth str)          (* a jump/branch target no instruction follows *)
+| CFunctionWithoutReturn (entry : pnode) (labels : list (wth str))   (* no return reachable from the entry *)
 | CUnexpectedError.
 
 Definition new_cnode (n : pnode) (labels : list (wth str)) (text : bool) : cnode :=
@@ -377,7 +379,7 @@ Fixpoint directions_loop (todo : list cnode) (i : nat) (prev : option nat) (g : 
       | Some label =>
           match find_label (wv label) g 0 with
           | Some j => step (add_edge g i j)
-          | None => inl CUnexpectedError
+          | None => inl (CLabelWithoutInstruction label)
           end
       | None => step g
       end
@@ -469,7 +471,9 @@ Definition mark_function (g : cfg) (entry : nat) (pick : option nat) : cfgerr + 
   let r := reachable ns entry in
   let rets := filter (fun i => match getn ns i with Some c => is_return (cn c) | None => false end) r in
   match rets with
-  | [] => inl CUnexpectedError
+  | [] => inl (match getn ns entry with
+               | Some c => CFunctionWithoutReturn (cn c) (clabels c)
+               | None => CUnexpectedError end)
   | first :: _ =>
       let ex := match pick with Some p => if memn p rets then p else first | None => first end in
       let defs := fold_left (fun acc i => match getn ns i with
